@@ -153,7 +153,7 @@ alias ARes = Res
 
 PRIM_LEAVES = ['Int32', 'Int32(min_value=-5, max_value=5)', 'UInt32', 'Int64', 'UInt64(max_value=18446744073709551615)',
                'Float32', 'Float64(min_value=-1.5, max_value=2.5)', 'Boolean', 'String', 'String(min_length=1, max_length=3)',
-               'String(pattern="[a-c]+")', 'Bytes', 'Timestamp("%Y-%m-%dT%H:%M:%SZ")', 'Timestamp("%Y")']
+               'String(pattern="[a-c]+")', 'Bytes', 'Timestamp("%Y-%m-%dT%H:%M:%SZ")', 'Timestamp("%Y")', 'Timestamp("%Y-%m-%dT%H:%M:%S%z")']
 USER_LEAVES = ['Plain', 'Kid', 'Empty', 'AllOpt', 'C', 'G', 'Res', 'ResC', 'File', 'UOpen', 'UClosed', 'UnionCc', 'UChild', 'UnionCc2', 'UGrand', 'UColl', 'nb.Foreign', 'nb.ForeignU']
 ALIAS_LEAVES = ['APrim', 'AStr', 'APlain', 'ANull', 'ANullOpt', 'ANullE', 'ANullU', 'ANullTs', 'AList', 'AliasA', 'AliasU', 'ARes', 'nb.ForeignA', 'nb.ForeignNull']
 NULLABLE_LEAVES = {'ANull', 'ANullOpt', 'ANullE', 'ANullU', 'ANullTs', 'nb.ForeignNull'}
@@ -317,10 +317,22 @@ def float_bounds(t):
     return lo, hi
 
 
+AWARE = [False]     # C05 only: also offer timezone-aware UTC datetimes for formats without an offset directive (valid values whose
+                    # encoding is prescribed, but which do not read back as themselves, so they are no round-trip values)
+
+
 def ts_values(fmt):
+    utc = datetime.timezone.utc
+    if '%z' in fmt:
+        # only aware values are representable in a format with an offset directive
+        return [datetime.datetime(1970, 1, 1, 0, 0, 0, tzinfo=utc), datetime.datetime(2015, 5, 12, 15, 50, 38, tzinfo=utc)]
     if fmt == '%Y':
-        return [datetime.datetime(2000, 1, 1), datetime.datetime(1970, 1, 1)]
-    return [datetime.datetime(1970, 1, 1, 0, 0, 0), datetime.datetime(2015, 5, 12, 15, 50, 38)]
+        out = [datetime.datetime(2000, 1, 1), datetime.datetime(1970, 1, 1)]
+    else:
+        out = [datetime.datetime(1970, 1, 1, 0, 0, 0), datetime.datetime(2015, 5, 12, 15, 50, 38)]
+    if AWARE[0]:
+        out = out + [out[-1].replace(tzinfo=utc)]
+    return out
 
 
 def ref_values(t, depth=0, rich=True):
